@@ -43,22 +43,43 @@ def _accumulator(fn, loop):
     return cands[0] if len(cands) == 1 else None
 
 
-def _alpha(loop, acc):
-    order = {}
-    for n in ast.walk(loop):
-        if isinstance(n, ast.Name) and n.id not in ("self", acc) and n.id not in order and not hasattr(builtins, n.id):
-            order[n.id] = "v%d" % len(order)
-    order[acc] = "ACC"
-    return order
+def _alpha(loop, acc, fn=None):
+    """How the names of the loop are made comparable between the two siblings: a name stands for its role, not for its
+    spelling or for how many other locals precede it - the accumulator is ACC, the loop targets are T0, T1, .., a local
+    assigned once in the loop body stands for the expression assigned to it (inlined), the recursive call is REC."""
+    targets = {}
+    for n in ast.walk(loop.target):
+        if isinstance(n, ast.Name):
+            targets[n.id] = "T%d" % len(targets)
+    defs = {}
+    for st in ast.walk(loop):
+        if isinstance(st, ast.Assign) and len(st.targets) == 1 and isinstance(st.targets[0], ast.Name):
+            defs.setdefault(st.targets[0].id, []).append(st.value)
+        elif isinstance(st, ast.AugAssign) and isinstance(st.target, ast.Name):
+            defs.setdefault(st.target.id, []).extend([st.value, st.value])       # not a plain definition
+    single = {k: v[0] for k, v in defs.items() if len(v) == 1 and k != acc and k not in targets}
+    return {"acc": acc, "targets": targets, "defs": single, "rec": getattr(fn, "name", None)}
 
 
-def _norm(e, names):
+def _norm(e, names, depth=0):
     e = ast.parse(ast.unparse(e), mode="eval").body
 
     class R(ast.NodeTransformer):
         def visit_Name(self, node):
-            return ast.copy_location(ast.Name(id=names.get(node.id, node.id), ctx=ast.Load()), node)
-    return ast.unparse(R().visit(e))
+            if node.id == names["acc"]:
+                return ast.Name(id="ACC", ctx=ast.Load())
+            if node.id in names["targets"]:
+                return ast.Name(id=names["targets"][node.id], ctx=ast.Load())
+            if node.id in names["defs"] and depth < 5:
+                return ast.parse("(" + _norm(names["defs"][node.id], names, depth + 1) + ")", mode="eval").body
+            return ast.Name(id=node.id, ctx=ast.Load())
+
+        def visit_Attribute(self, node):
+            self.generic_visit(node)
+            if names.get("rec") and node.attr == names["rec"]:
+                node.attr = "REC"
+            return node
+    return ast.unparse(ast.fix_missing_locations(R().visit(e)))
 
 
 def _update_kind(stmt, acc, names):
@@ -90,7 +111,7 @@ def update_table(fn):
     acc = _accumulator(fn, loop)
     if acc is None:
         return None, "no single accumulator list"
-    names = _alpha(loop, acc)
+    names = _alpha(loop, acc, fn)
     atoms = block_atoms(loop.body)
     models = assignments(atoms)
     if models is None:
